@@ -70,6 +70,8 @@ func main() {
 		run = runC18(*fTier)
 	case "C19":
 		run = runC19(*fTier)
+	case "C04S":
+		run = runC04S(*fTier)
 	default:
 		fmt.Fprintln(os.Stderr, "sysrig: unknown property", *fProp)
 		os.Exit(64)
